@@ -168,13 +168,14 @@ fn iter_faults<E: Elem>(g: &mut Grid, thorough: bool) {
 }
 
 // ---------------------------------------------------------------- Clone panics
-type P = Tracked<6>;
-
-fn clone_faults(g: &mut Grid) {
+macro_rules! clone_faults_for {
+    ($fname:ident, $P:ty, $pname:expr) => {
+fn $fname(g: &mut Grid) {
+    type P = $P;
     for api in ["make_mut", "make_unique", "unwrap_or_clone", "OffsetArc::make_mut"] {
         for co in ["none", "arc", "offset", "union", "raw"] {
             for k in [1usize, 2] {
-                let case = format!("{} co-owner={} panic_at_clone={}", api, co, k);
+                let case = format!("{} payload={} co-owner={} panic_at_clone={}", api, $pname, co, k);
                 vrt::begin_execution();
                 let a = cap(|| Arc::new(P::new(5)));
                 let id = a.id();
@@ -223,7 +224,7 @@ fn clone_faults(g: &mut Grid) {
                 let ncl = track::clone_calls();
                 track::arm_clone_panic(0);
                 let panicked = r.is_err();
-                g.case(format!("clone|{}|{}|{}|{}", api, co, k, panicked), || format!("{} -> {}", case, if panicked { "panic" } else { "ok" }));
+                g.case(format!("clone|{}|{}|{}|{}|{}", $pname, api, co, k, panicked), || format!("{} -> {}", case, if panicked { "panic" } else { "ok" }));
                 if panicked != (shared && k == 1) {
                     g.fail("unexpected-outcome", &case, format!("panicked={} with {} Clone calls (a panic is expected exactly when the value is shared and the first clone is armed)", panicked, ncl));
                 }
@@ -288,6 +289,11 @@ fn clone_faults(g: &mut Grid) {
         }
     }
 }
+
+    };
+}
+clone_faults_for!(clone_faults, Tracked<6>, "tracked16");
+clone_faults_for!(clone_faults_big, vrt::track::TrackedB<6>, "tracked320");
 
 // ---------------------------------------------------------------- closure panics in with_* callbacks
 fn closure_faults(g: &mut Grid) {
@@ -658,6 +664,7 @@ pub fn run(tier: &str) -> Vec<Grid> {
     iter_faults::<E2>(&mut a, thorough);
     let mut b = Grid::new("c07.clone", "make_mut / make_unique / unwrap_or_clone / OffsetArc::make_mut x co-owner kind x armed Clone panic (k = 1, 2)");
     clone_faults(&mut b);
+    clone_faults_big(&mut b);
     let mut c = Grid::new("c07.closure", "with_arc (ThinArc, OffsetArc, ArcBorrow), with_raw_offset_arc, with_arc_mut x callback behaviour x {return, panic}");
     closure_faults(&mut c);
     let mut d = Grid::new("c07.cmp", "PartialEq / PartialOrd / Ord / Hash / Debug / Display of the payload panicking at each k-th call, through every handle kind");
